@@ -26,6 +26,7 @@ use sha2::Sha512;
 /// outcome of one call: Ok(Some(accepted)) for decoders, Ok(None) for total constructors
 fn drive(ctx: &Ctx, key: &str, case: serde_json::Value, expect_ok: Option<bool>, f: impl FnOnce() -> bool) {
     ctx.eval(1);
+    ctx.case(&format!("{}|{}", key, case));
     match guarded(f) {
         Err(e) => ctx.violation(key, &format!("panic: {}", e), case),
         Ok(got) => {
@@ -228,6 +229,5 @@ pub fn run(ctx: &Ctx) {
         }
     }
     let _ = eddsa::sha512(&[b""]);
-    ctx.nontriv(ctx.evaluations.load(std::sync::atomic::Ordering::Relaxed));
     ctx.sample_tag("untrusted", json!({"entry": "verify_prehashed", "input": "context of 256 bytes", "expected": "Err, no panic (also on the checked profile)"}));
 }
